@@ -90,6 +90,12 @@ def scn_progress(p, res):
     res.require_floor(38)
 
 
+@rule('SCN-SKIP', 'N', 'a scanning loop never consumes a character and then skips the next one unexamined in the same iteration')
+def scn_skip(p, res):
+    _emit(p, res, 'SCN-SKIP')
+    res.require_floor(12)
+
+
 REST_EXEMPT = {
     'emmet.markup.format.template.consume_placeholder':
         'returns None with the cursor at the end of an unclosed "["; its only caller then leaves its loop and slices by offset',
